@@ -16,7 +16,9 @@ RULE = (
     'One case = a tagged union {codec, a, b, ...}: a pair of values of one '
     'codec (rule file name, container unique name, 13-char id, app / server '
     'trace node name, ZooKeeper payload, LDAP Application / CellAllocation / '
-    'Partition entry, _diff_entries modify list), b being a copy, a '
+    'Partition entry, _diff_entries modify list incl. the real '
+    'LdapObject.update -> Admin.update path for CellAllocation and '
+    'Partition), b being a copy, a '
     'field-wise blend or an independent draw. Values come from the producers\' '
     'vocabulary (schema regexes, Master/_run/_finish/vring call sites). Each '
     'value is encoded and decoded by the real code (a third of the trace '
@@ -46,6 +48,10 @@ ASSUMPTIONS = [
     '{limit 5, interval 60}, cpu 0% / memory 0G / disk 0G, partition _default; '
     'keyed sub-object lists (services, endpoints, ...) are compared as sets '
     'because to_entry sorts them by key',
+    'update check: the stored record is what LdapObject.create leaves '
+    '(server-normalised to_entry); only fields present in the update are '
+    'claimed to read back as written (no claim about untouched fields); '
+    'partition limits carry all four fields as the CLI writes them',
     'fields of app.json that the LDAP Application schema does not model '
     '(archive, affinity) are outside the generated domain',
 ]
@@ -143,6 +149,16 @@ def fixed_cases():
                 'shared_ip': True, 'args': ['x']},
             'new': {'cpu': '20%', 'endpoints': [{'name': 'b', 'port': 3}],
                     'shared_ip': True, 'args': None, 'memory': '1G'}}),
+        # REST reservation.update merges the request into the stored record
+        # and calls CellAllocation.update: traits [] must clear the traits
+        ('update-empty-traits', {
+            'codec': 'diff_entries', 'mode': 'cellalloc',
+            'old': {'cpu': '10%', 'memory': '1G', 'disk': '1G',
+                    'partition': 'p1', 'traits': ['gpu'],
+                    'assignments': [{'pattern': 'proid.*', 'priority': 1}]},
+            'new': {'cpu': '10%', 'memory': '2G', 'disk': '1G',
+                    'partition': 'p1', 'traits': [],
+                    'assignments': [{'pattern': 'proid.*', 'priority': 1}]}}),
     ]
     for idx, (decoder, data) in enumerate(codecs.FUZZ_SEEDS):
         cases.append(('fuzz-seed-%d' % idx,
